@@ -87,6 +87,10 @@ pub(crate) fn parse_type_system_document(
     }
 
     // exposeField directives -> fields
+    // (in the order of the entity names: the first error that is reported, and the order of the
+    // non-fatal diagnostics, must not depend on the iteration order of the hash map)
+    let mut directives = directives.into_iter().collect::<Vec<_>>();
+    directives.sort_by_key(|(parent_object_entity_name, _)| *parent_object_entity_name);
     'exposeField: for (parent_object_entity_name, directives) in directives {
         let result = from_graphql_directives::<ServerEntityDirectives>(&directives)?;
         for expose_field_directive in result.expose_field {
